@@ -739,7 +739,7 @@ MICRO_TEMPLATES = [
     "x = a{I};", "{I}a;", "a{I};", "x = sizeof(int) {B} a;", "x = s->b {B} {U}t.d;", "x = *p {B} {U}*q;",
     "x = a {B} b {B} c;", "x = a {B} ({U}b {B} c);", "x = f(a) {B} {U}g(b);", "x = a[b] {B} {U}p[c];",
     "x = a {B} {U}(b);", "x = (int *){U}a;", "x = (t_s *){C};", "x = a {B} {U}f(b);",
-    "f(a{I} {B} b);", "return (a{I} {B} b);", "f({I}a {B} b);",
+    "f(a{I} {B} b);", "return (a{I} {B} b);", "f({I}a {B} b);", "x = (a) {B} b;", "x = (a) {B} (b);", "f((a) {B} b);",
     "x = {N} {B} {U}{N};", "x = {U}{N};", "return ({U}{N});", "x = (a {B} b);", "x = (int)(a {B} b);",
 ]
 MICRO_CTRL = ["if (a {B} {U}b)", "while (a {B} b {B} {U}c)", "if ({U}a)", "if ((a {B} b) {B} c)", "while ({U}f(a) {B} b)"]
@@ -754,7 +754,7 @@ def _expand(tmpl, bsizes):
 
     def ident(n):
         if n not in names:
-            names[n] = Slot("id", n)
+            names[n] = Slot("id", n * 3 if len(n) == 1 else n)     # three characters: room for prefixes / suffixes such as _t
         return names[n]
     for tok in re.split(r"(\{[A-Z]\}|[a-z]+)", tmpl):
         if not tok:
